@@ -933,6 +933,9 @@ class Database:
             else:
                 # NOTE: after loading, the previously unset values will be defaulted
                 temp = [c.p.get(paramDef.name, paramDef.default) for c in comps]
+                # an object that never assigned a parameter without default has no value for
+                # it; the values the other objects assigned must still be stored
+                temp = [None if val is parameters.NoDefault else val for val in temp]
                 if paramDef.serializer is not None:
                     data, sAttrs = paramDef.serializer.pack(temp)
                     assert (
